@@ -1,0 +1,13 @@
+//go:build !verif
+
+package process
+
+import (
+	"github.com/angelsolaorbaiceta/inkmath/mat"
+	"github.com/angelsolaorbaiceta/inkmath/vec"
+)
+
+// verifObserveSolution is a verification hook which does nothing unless the binary is
+// built with the verif tag.
+func verifObserveSolution(sysMatrix mat.ReadOnlyMatrix, sysVector, solution vec.ReadOnlyVector, maxError float64) {
+}
